@@ -178,6 +178,16 @@ Battery(tyname, A, B) ==
        \o (IF t.fam = "coll" THEN <<ins(D[1]), ins(D[2]), ins(D[1]), Q("iter", 1), Q("len", 1), Q("intoiter", 1),
                                      Q("len", 1), ins(D[2]), Q("iter", 1)>> ELSE <<>>)
 
+(* C07 scripts: for a trie type, a bimorphism, a side and a row set A, the distributivity event
+   for every (DA, B) *)
+BimsOf(tn) == CASE tn = "g0" -> {"valprod"} [] tn = "g1" -> {"cart", "join", "wrap"} [] tn = "g4" -> {"join"}
+                [] OTHER -> {}
+DistBattery(tn, bim, side, A) ==
+    LET D == Dom(TypeTable[tn].width)
+        subs == SeqOfSet(SUBSET Range(D))
+        one(DA, B) == [op |-> "dist", bim |-> bim, side |-> side, a |-> Sel(D, A), da |-> Sel(D, DA), b |-> Sel(D, B)]
+    IN Flat([i \in 1..Len(subs) |-> [j \in 1..Len(subs) |-> one(subs[i], subs[j])]])
+
 -----------------------------------------------------------------------------
 Init ==
     \E tn \in TYPES : \E A \in SUBSET Range(Dom(TypeTable[tn].width)) :
@@ -188,7 +198,27 @@ Init ==
         /\ sem = TypeTable[tn].sem /\ width = TypeTable[tn].width /\ keys = TypeTable[tn].keys
         /\ fam = TypeTable[tn].fam
         /\ rows = <<NoRows, NoRows>>
-        /\ bad = {} /\ odd = {}
+        /\ bad = {} /\ odd = {} /\ bad7 = {}
+
+DistInit ==
+    \E tn \in TYPES : \E bim \in BimsOf(tn) : \E side \in {"l", "r"} :
+    \E A \in SUBSET Range(Dom(TypeTable[tn].width)) :
+        /\ ty = tn
+        /\ script = DistBattery(tn, bim, side, A)
+        /\ done = <<>>
+        /\ sem = TypeTable[tn].sem /\ width = TypeTable[tn].width /\ keys = TypeTable[tn].keys
+        /\ fam = TypeTable[tn].fam
+        /\ rows = <<NoRows, NoRows>>
+        /\ bad = {} /\ odd = {} /\ bad7 = {}
+
+\* the model's bimorphism is the relational one; its two sides are computed separately, so the
+\* step checks that relational product / join distribute over union
+DistStep(o) ==
+    LET X == Range(o.a)  DX == Range(o.da)  Y == Range(o.b)
+        lhs == IF o.side = "l" THEN BimRows(o.bim, X \cup DX, Y) ELSE BimRows(o.bim, Y, X \cup DX)
+        rhs == IF o.side = "l" THEN BimRows(o.bim, X, Y) \cup BimRows(o.bim, DX, Y)
+               ELSE BimRows(o.bim, Y, X) \cup BimRows(o.bim, Y, DX)
+    IN MDist(o.bim, o.side, o.a, o.da, o.b, <<SeqOfSet(lhs), SeqOfSet(rhs), lhs = rhs>>, FALSE)
 
 Step ==
     /\ script # <<>>
@@ -197,14 +227,15 @@ Step ==
            ret == IF o.op = "cmp"
                   THEN CHOOSE x \in outcomes : TRUE
                   ELSE RefRet(o.op, o.s, o.row, o.head, o.prefix)
-       IN MOp(o.op, o.s, o.row, o.rows, o.head, o.prefix, ret, FALSE)
+       IN IF o.op = "dist" THEN DistStep(o)
+          ELSE MOp(o.op, o.s, o.row, o.rows, o.head, o.prefix, ret, FALSE)
     /\ script' = Tail(script)
     /\ done' = Append(done, Head(script))
     /\ UNCHANGED ty
 
 Finished == script = <<>> /\ UNCHANGED vars
 Next == Step \/ Finished
-Spec == Init /\ [][Next]_vars
+Spec == (Init \/ DistInit) /\ [][Next]_vars
 
 -----------------------------------------------------------------------------
 \* the transcribed partial_cmp has exactly one possible result whatever the iteration order,
@@ -213,7 +244,7 @@ CmpFact ==
     LET A == Supp(rows[1])  B == Supp(rows[2]) IN
     (fam = "ght" /\ sem = "set") => CmpOutcomes(A, B, 0, keys) = {RefCmp(A, B)}
 
-ModelInv == NoRuleBroken /\ odd = {}
+ModelInv == NoRuleBroken /\ odd = {} /\ bad7 = {}
 
 Emit == (EMIT /\ script = <<>>) => PrintT(<<"CASE", ToJson([ty |-> ty, ops |-> done])>>)
 =============================================================================
